@@ -140,6 +140,11 @@ def items(tier, seed):
     rng = random.Random(seed)
     out = [{"qs": [q], "rs": [r]} for q in range(NQ) for r in range(NR) if tier != "quick" or (q + r) % 2 == 0]
     out += [{"qs": [q], "rs": [(q * 3) % NR], "two_db": True} for q in (0, 7, 20, 33)]
+    if tier == "quick":
+        # always in: the queries that mention something a registration introduces later (category c9, unit km, unit in / its default category), with that registration
+        for q, r in ((6, 4), (7, 4), (6, 0), (7, 0), (12, 0), (19, 0), (20, 0), (21, 0), (24, 0), (35, 0), (43, 9), (44, 9), (45, 9), (43, 10), (44, 10), (45, 10), (15, 1), (22, 1), (14, 2), (16, 8), (17, 8)):
+            if (q + r) % 2 == 1:
+                out.append({"qs": [q], "rs": [r]})
     if tier != "quick":
         allq = [(a, b, r) for a in range(NQ) for b in range(NQ) for r in range(NR)]
         out += [{"qs": [a, b], "rs": [r]} for a, b, r in rng.sample(allq, 7000)]
